@@ -256,6 +256,37 @@ def o_pipe_in(w):
     out += [(n_, g) for n_, g in w.m.violations if n_.startswith('dropped-twice:flag')]
     return out
 
+def o_pipe_out(w):
+    """pipe: the consumer receives exactly one output per input, in input order, then the end of the stream"""
+    out = []
+    for pid, pp in enumerate(w.pipes):
+        if 'consumer' not in pp: continue
+        base, n = pp['base'], pp['n']
+        for j, op in enumerate(pp['consumer']):
+            ret = w.ghost.get('ret%d' % op, NONE_T); got = w.ghost.get('sgot%d' % op, NONE_T); val = w.ghost.get('sval%d' % op, NONE_T)
+            returned = Ne(ret, NONE_T)
+            if j < n:
+                out.append(('pipe%d-output%d-missing-stream-ended-early' % (pid, j), And(returned, Ne(got, ONE))))
+                out.append(('pipe%d-output%d-wrong-value' % (pid, j), And(returned, Eq(got, ONE), Ne(val, BV(40 + base + j)))))
+                out.append(('pipe%d-output%d-before-its-input-was-processed' % (pid, j), And(returned, Eq(w.ghost.get('end%d' % (base + j), NONE_T), NONE_T))))
+            else:
+                out.append(('pipe%d-output-beyond-inputs' % pid, And(returned, Ne(got, ZERO))))
+    return out
+
+def o_pipe_closed(w):
+    """dropping the output stream shuts the pipe down: once the caller's own reference is gone too, the Desync is freed and the input stream and closure are dropped"""
+    out = []
+    Q = w.quiescent
+    for pid, pp in enumerate(w.pipes):
+        if 'consumer' not in pp: continue
+        cid = w.canaries[pp['var']]
+        sd = Ne(w.ghost.get('sdropped%d' % pid, NONE_T), NONE_T); gone = Ne(w.ghost.get('dropend%d' % cid, NONE_T), NONE_T)
+        out.append(('pipe%d-still-holds-desync-after-output-dropped' % pid, And(Q, sd, gone, Ne(w.ghost.get('ndrop%d' % cid, ZERO), ONE))))
+        for f_, what in ((2 * pid, 'input-stream'), (2 * pid + 1, 'closure')):
+            out.append(('pipe%d-%s-not-released-after-output-dropped' % (pid, what), And(Q, sd, gone, Ne(w.ghost.get('flagdrop%d' % f_, ZERO), ONE))))
+    out += [(n_, g) for n_, g in w.m.violations if n_.startswith('dropped-twice:flag')]
+    return out
+
 def o_independent(w):
     """with the gates never opened, whenever no thread can move every un-gated operation has completed"""
     out = []
@@ -265,5 +296,5 @@ def o_independent(w):
         out.append(('blocked-by-other-object:op%d' % op['opid'], And(w.norun, Ne(n, ONE))))
     return out
 
-ORACLES = {'independent': o_independent, 'pipe_in': o_pipe_in, 'panic_unexpected': o_panic_unexpected, 'panic_contained': o_panic_contained, 'memory': o_memory, 'drop_waits': o_drop_waits, 'fut_results': o_fut_results, 'suspend': o_suspend, 'cancelled_clean': o_cancelled_clean, 'overlap': o_overlap, 'ran_twice': o_ran_twice, 'pool_max': o_pool_max, 'deadlock': o_deadlock, 'panic': o_panic,
+ORACLES = {'independent': o_independent, 'pipe_in': o_pipe_in, 'pipe_out': o_pipe_out, 'pipe_closed': o_pipe_closed, 'panic_unexpected': o_panic_unexpected, 'panic_contained': o_panic_contained, 'memory': o_memory, 'drop_waits': o_drop_waits, 'fut_results': o_fut_results, 'suspend': o_suspend, 'cancelled_clean': o_cancelled_clean, 'overlap': o_overlap, 'ran_twice': o_ran_twice, 'pool_max': o_pool_max, 'deadlock': o_deadlock, 'panic': o_panic,
            'quiescent_complete': o_quiescent_complete, 'results': o_results, 'order': o_order, 'final_try_sync': o_final_try_sync}
